@@ -92,7 +92,7 @@ structure Builder where
   capacity : Nat
   deriving Repr
 
-def rootInfo : Info := ⟨"schema", none, none, 0, none⟩
+def rootInfo : Info := ⟨"schema", none, none, 0, none, none⟩
 
 def Builder.create : Builder := ⟨[⟨rootInfo, 0⟩], [], 64⟩
 
